@@ -9,6 +9,7 @@ CONSTANTS
   TimeoutSignals = TRUE
   SkipOnErr = TRUE
   ReportRetry = TRUE
+  ReportClaim = "swap"
   DeadlineArmed = TRUE
   AllowClose = FALSE
   AllowRecon = FALSE
